@@ -843,6 +843,11 @@ def annotated_loop(ex, node, spec, it=None):
     # 2. havoc
     exempt_vals = set()
     exempt_fields = set()
+    k = None
+    if is_for:
+        k = ex.fresh_int(spec.index, 0, None)
+        ex.assume(mk_bool(zint(k) <= zint(n)))
+        fr.locals[spec.index] = k
     for lv, shp in spec.havoc.items():
         if isinstance(shp, str):
             v = eval_clause(ex, shp, fr.locals, mod, fr.env)
@@ -867,10 +872,6 @@ def annotated_loop(ex, node, spec, it=None):
     for nm in body_names:
         if nm not in spec.havoc:
             fr.locals[nm] = LoopTemp(nm, tag)
-    if is_for:
-        k = ex.fresh_int(spec.index, 0, None)
-        ex.assume(mk_bool(zint(k) <= zint(n)))
-        fr.locals[spec.index] = k
     # 3. assume invariant
     for inv in spec.invariant:
         ex.assume(clause_truth(ex, inv, fr.locals, mod, fr.env, None, 'invariant'))
